@@ -56,7 +56,7 @@ def run(tier, seed, drv):
         run_ = run_scenario(scn, bus="sync")
         res.case(SC.scn_key(scn), nontrivial=True)
         res.count("race-scenarios")
-        SC.check_run(scn, run_, drv, res, monitors_on=MON, corr=("ticker",), case_extra={"bus": "sync"})
+        SC.check_run(scn, run_, drv, res, monitors_on=MON, corr=("ticker", "mloop"), case_extra={"bus": "sync"})
     # callbacks that are overdue when an interrupt arrives (real time passes while the loop iterates): a system
     # is then ticked later than several of its inner wakeups; it must serve all of them and never answer
     # with a callback in the past
@@ -65,7 +65,7 @@ def run(tier, seed, drv):
         run_ = run_scenario(scn, bus="sync")
         res.case(SC.scn_key(scn), nontrivial=True)
         res.count("overdue-callbacks")
-        SC.check_run(scn, run_, drv, res, monitors_on=MON, corr=("ticker",), case_extra={"bus": "sync"})
+        SC.check_run(scn, run_, drv, res, monitors_on=MON, corr=("ticker", "mloop"), case_extra={"bus": "sync"})
     return res
 
 
